@@ -211,6 +211,15 @@ def run_check(prop, tier, seed):
                     failures.append({"kind": "theorem", "detail": "%s: theorem(s) no longer check: %s" % (rel, bad), "log": tlog})
         obligations = len(theorems) + 1
         discharged = sum(1 for r in theorems if r["closed"])
+        chk_summary = None
+        if ok and tier == "thorough":
+            # the independent checker re-checks the compiled property modules and all they depend on
+            cok, chk_summary = coqrun.coqchk([prop.props_file, prop.refuted_file])
+            obligations += 1
+            if cok:
+                discharged += 1
+            else:
+                failures.append({"kind": "theorem", "detail": "coqchk does not accept the property modules without assumptions: %s" % chk_summary})
 
         # ---- cases ------------------------------------------------------------------
         prop.setup()
@@ -384,6 +393,7 @@ def run_check(prop, tier, seed):
                 "correspondence_unmodelled": corr_unmodelled,
                 "correspondence_disagreements": len(corr_bad),
                 "selftest_reported": selftest_ok,
+                "coqchk": chk_summary,
                 "evaluations": len(cases) + searched,
                 "distinct_nontrivial": len(distinct),
                 "rule": prop.rule,
